@@ -3,12 +3,17 @@ package checks
 // C19 — schema evolution never alters existing data.
 //
 // One case = one scripted history (stored in the case) on one or two real nodes:
-//   evolve     one node, 1-2 collections, creates / updates / deletes interleaved with add-field
+//   evolve     one node, 1-3 collections, creates / updates / deletes interleaved with add-field
 //              patches (every scalar kind, arrays, counters; setAsDefaultVersion true/false) and
 //              SetActiveSchemaVersion back and forth over the version graph; optional secondary index
 //              on an old field. Ends with a tour over every version.
-//   two-node   two nodes start on the same schema, are patched at different times (or only one is),
-//              switch versions, write, and exchange commits by block-closure copy + hook H1.
+//              A patch is ONE PatchSchema call; it adds one field to one collection, or (multi-patch)
+//              several fields to two or three collections at once (one or two fields per collection,
+//              the JSON patch operations in any order), on top of whatever version each collection
+//              has active (latest or not).
+//   two-node   two nodes (1-3 collections) start on the same schema, are patched at different times
+//              (or only one is; single- and multi-collection patches), switch versions, write, and
+//              exchange commits by block-closure copy + hook H1.
 //
 // Oracles:
 //   model       (one node) docID -> field -> value maintained from the script; after every step the
@@ -17,7 +22,9 @@ package checks
 //   before/after a patch or switch changes no value of a field common to the old and new active
 //               version, no docID, no _deleted flag and no entry of any document's commit list.
 //   append-only every document's commits list after a step ⊇ the list before it, entries identical.
-//   versions    after a patch / switch the active version is the requested one and the only active one.
+//   versions    after a patch / switch EVERY collection of the node (touched by the step or not) has
+//               exactly one active version, the requested one; a patch creates exactly one new version
+//               per collection it names (= the version patched + the added fields) and none elsewhere.
 //   two-node    every merge succeeds; after a full exchange the dumps restricted to the fields both
 //               active versions know are equal (fields of a document that the receiver merged while
 //               its active version did not know them are excluded and counted).
@@ -44,14 +51,21 @@ type seField struct {
 	Typ  int    `json:"typ,omitempty"` // 0 = register, 4 = pncounter, 5 = pcounter
 }
 
+// sePart: one `add` operation of a PatchSchema call.
+type sePart struct {
+	Col   int     `json:"c"`
+	Field seField `json:"f"`
+}
+
 type seOp struct {
 	Kind       string         `json:"k"` // patch | switch | create | update | delete | deliver
 	Node       int            `json:"n"`
-	Col        int            `json:"c"`             // collection index
-	Field      *seField       `json:"f,omitempty"`   // patch
-	SetDefault bool           `json:"def,omitempty"` // patch: setAsDefaultVersion
-	Ver        int            `json:"v,omitempty"`   // switch: index into the node's version table of the collection (creation order)
-	Doc        int            `json:"d,omitempty"`   // document index (creation order over all collections)
+	Col        int            `json:"c"`               // collection index
+	Field      *seField       `json:"f,omitempty"`     // patch: the single field added to Col
+	Parts      []sePart       `json:"parts,omitempty"` // patch: the operations of one PatchSchema call, in order (overrides Col/Field)
+	SetDefault bool           `json:"def,omitempty"`   // patch: setAsDefaultVersion
+	Ver        int            `json:"v,omitempty"`     // switch: index into the node's version table of the collection (creation order)
+	Doc        int            `json:"d,omitempty"`     // document index (creation order over all collections)
 	W          map[string]any `json:"w,omitempty"`
 	Src        int            `json:"src,omitempty"` // deliver: source node
 }
@@ -63,11 +77,37 @@ type seParams struct {
 	Script []seOp `json:"script"`
 }
 
-var seColNames = []string{"User", "Book"}
+var seColNames = []string{"User", "Book", "Note"}
+
+// parts of a patch operation (the single-field form is one part).
+func (op seOp) parts() []sePart {
+	if len(op.Parts) > 0 {
+		return op.Parts
+	}
+	if op.Field != nil {
+		return []sePart{{Col: op.Col, Field: *op.Field}}
+	}
+	return nil
+}
+
+// seTouched: the collections a patch names, ascending.
+func seTouched(parts []sePart) []int {
+	seen := map[int]bool{}
+	var out []int
+	for _, pt := range parts {
+		if !seen[pt.Col] {
+			seen[pt.Col] = true
+			out = append(out, pt.Col)
+		}
+	}
+	sort.Ints(out)
+	return out
+}
 
 var seBase = [][]seField{
 	{{Name: "name", Kind: "String"}, {Name: "age", Kind: "Int"}, {Name: "tag", Kind: "String"}, {Name: "pts", Kind: "Int", Typ: 5}},
 	{{Name: "title", Kind: "String"}, {Name: "pages", Kind: "Int"}},
+	{{Name: "text", Kind: "String"}, {Name: "rank", Kind: "Int"}, {Name: "seen", Kind: "Int", Typ: 4}},
 }
 
 const seTagDefault = "t0"
@@ -80,6 +120,9 @@ func seSDL(p seParams) string {
 	s := fmt.Sprintf("type User {\n name: String%s\n age: Int\n tag: String @default(string: %q)\n pts: Int @crdt(type: pcounter)\n}\n", idx, seTagDefault)
 	if p.Cols > 1 {
 		s += "type Book {\n title: String\n pages: Int\n}\n"
+	}
+	if p.Cols > 2 {
+		s += "type Note {\n text: String\n rank: Int\n seen: Int @crdt(type: pncounter)\n}\n"
 	}
 	return s
 }
@@ -156,7 +199,7 @@ func newSeGen(rng *rand.Rand, nodes, cols int, index bool) *seGen {
 	for c := 0; c < cols; c++ {
 		perm := rng.Perm(len(seKindPool))
 		var fs []seField
-		for k := 0; k < 4; k++ {
+		for k := 0; k < 6; k++ {
 			f := seKindPool[perm[k]]
 			f.Name = fmt.Sprintf("f%d%c", k+1, 'a'+c)
 			fs = append(fs, f)
@@ -241,8 +284,8 @@ func (g *seGen) del(n int) bool {
 	return true
 }
 
-// patch adds the next pool field the node has in none of its versions on top of the active version.
-func (g *seGen) patch(n, c int, setDefault bool) bool {
+// candidates: the pool fields of collection c the node has in none of its versions.
+func (g *seGen) candidates(n, c int) []seField {
 	gn := g.nodes[n]
 	have := map[string]bool{}
 	for _, v := range gn.vers[c] {
@@ -256,6 +299,75 @@ func (g *seGen) patch(n, c int, setDefault bool) bool {
 			cand = append(cand, f)
 		}
 	}
+	return cand
+}
+
+// patchMulti emits ONE patch that adds one field to every collection of cols (two fields to the
+// collection `two`, if >= 0) on top of the version each of them has active; the operations are shuffled.
+// At least two collections must be patchable, else nothing is emitted.
+func (g *seGen) patchMulti(n int, cols []int, two int, setDefault bool) bool {
+	gn := g.nodes[n]
+	var parts []sePart
+	touched := 0
+	for _, c := range cols {
+		cand := g.candidates(n, c)
+		k := 1
+		if c == two {
+			k = 2
+		}
+		if len(cand) < k {
+			k = len(cand)
+		}
+		if k == 0 {
+			continue
+		}
+		if g.rng.IntN(3) == 0 {
+			g.rng.Shuffle(len(cand), func(i, j int) { cand[i], cand[j] = cand[j], cand[i] })
+		}
+		touched++
+		for _, f := range cand[:k] {
+			parts = append(parts, sePart{Col: c, Field: f})
+		}
+	}
+	if touched < 2 {
+		return false
+	}
+	g.rng.Shuffle(len(parts), func(i, j int) { parts[i], parts[j] = parts[j], parts[i] })
+	for _, c := range seTouched(parts) {
+		fs := append([]seField{}, g.activeFields(n, c)...)
+		for _, pt := range parts {
+			if pt.Col == c {
+				fs = append(fs, pt.Field)
+			}
+		}
+		gn.vers[c] = append(gn.vers[c], seGenVer{fields: fs})
+	}
+	g.emit(seOp{Kind: "patch", Node: n, Col: parts[0].Col, Parts: parts, SetDefault: setDefault})
+	if setDefault {
+		for _, c := range seTouched(parts) {
+			gn.active[c] = len(gn.vers[c]) - 1
+		}
+	}
+	return true
+}
+
+// randomMulti: a multi-collection patch over all or (three collections) a random pair of the collections.
+func (g *seGen) randomMulti(n int, setDefault bool) bool {
+	cols := g.rng.Perm(g.p.Cols)
+	if len(cols) > 2 && g.rng.IntN(2) == 0 {
+		cols = cols[:2]
+	}
+	two := -1
+	if g.rng.IntN(3) == 0 {
+		two = cols[g.rng.IntN(len(cols))]
+	}
+	return g.patchMulti(n, cols, two, setDefault)
+}
+
+// patch adds the next pool field the node has in none of its versions on top of the active version.
+func (g *seGen) patch(n, c int, setDefault bool) bool {
+	gn := g.nodes[n]
+	cand := g.candidates(n, c)
 	if len(cand) == 0 {
 		return false
 	}
@@ -314,7 +426,7 @@ func (g *seGen) exchange() {
 }
 
 func seGenEvolve(rng *rand.Rand) seParams {
-	g := newSeGen(rng, 1, 1+rng.IntN(2), rng.IntN(2) == 0)
+	g := newSeGen(rng, 1, 1+rng.IntN(3), rng.IntN(2) == 0)
 	for c := 0; c < g.p.Cols; c++ {
 		g.create(0, c)
 	}
@@ -325,12 +437,16 @@ func seGenEvolve(rng *rand.Rand) seParams {
 		c := rng.IntN(g.p.Cols)
 		switch x := rng.IntN(100); {
 		case x < 18 && patches < 4:
-			if g.patch(0, c, rng.IntN(4) != 0) {
+			if g.p.Cols > 1 && rng.IntN(100) < 45 {
+				if g.randomMulti(0, rng.IntN(3) != 0) {
+					patches++
+				}
+			} else if g.patch(0, c, rng.IntN(4) != 0) {
 				patches++
 			}
 		case x < 38:
 			g.sw(0, c)
-		case x < 50 && len(g.docCol) < 6:
+		case x < 50 && len(g.docCol) < 7:
 			g.create(0, c)
 		case x < 90:
 			g.update(0)
@@ -342,22 +458,36 @@ func seGenEvolve(rng *rand.Rand) seParams {
 }
 
 func seGenTwoNode(rng *rand.Rand) seParams {
-	g := newSeGen(rng, 2, 1, rng.IntN(3) == 0)
+	cols := 1
+	if x := rng.IntN(10); x >= 8 {
+		cols = 3
+	} else if x >= 4 {
+		cols = 2
+	}
+	g := newSeGen(rng, 2, cols, rng.IntN(3) == 0)
 	g.create(0, 0)
 	g.create(1, 0)
+	for c := 1; c < cols; c++ {
+		g.create(rng.IntN(2), c)
+	}
 	if rng.IntN(4) != 0 {
 		g.exchange()
 	}
 	steps := 8 + rng.IntN(12)
 	for s := 0; s < steps; s++ {
 		n := rng.IntN(2)
+		c := rng.IntN(cols)
 		switch x := rng.IntN(100); {
 		case x < 15:
-			g.patch(n, 0, rng.IntN(5) != 0)
+			if cols > 1 && rng.IntN(2) == 0 {
+				g.randomMulti(n, rng.IntN(4) != 0)
+			} else {
+				g.patch(n, c, rng.IntN(5) != 0)
+			}
 		case x < 25:
-			g.sw(n, 0)
-		case x < 33 && len(g.docCol) < 5:
-			g.create(n, 0)
+			g.sw(n, c)
+		case x < 33 && len(g.docCol) < 6:
+			g.create(n, c)
 		case x < 70:
 			g.update(n)
 		case x < 74:
@@ -466,13 +596,84 @@ func seAnchors() []core.Case {
 		{Kind: "deliver", Node: 0, Src: 1, Doc: 1},
 		{Kind: "deliver", Node: 1, Src: 0, Doc: 1},
 	}})
+	rating := seField{Name: "rating", Kind: "Int"}
+	isbn := seField{Name: "isbn", Kind: "String"}
+	stars := seField{Name: "stars", Kind: "Int"}
+	mark := seField{Name: "mark", Kind: "String"}
+	nick := seField{Name: "nick", Kind: "String"}
+	// ONE PatchSchema call naming several collections. Documents exist in all three collections; a patch of
+	// User+Book made the default, both queried (model) and written; a patch with two fields for User and one
+	// for Note that is NOT made the default; then a patch of all three collections on top of non-latest
+	// active versions (Book at its root, Note at its root with a newer inactive version, User at its latest)
+	add(seParams{Index: true, Nodes: 1, Cols: 3, Script: []seOp{
+		{Kind: "create", Col: 0, Doc: 0, W: map[string]any{"name": "a", "pts": 1}},
+		{Kind: "create", Col: 1, Doc: 1, W: map[string]any{"title": "t", "pages": 10}},
+		{Kind: "create", Col: 2, Doc: 2, W: map[string]any{"text": "x", "rank": 1, "seen": 2}},
+		{Kind: "create", Col: 0, Doc: 3, W: map[string]any{"name": "b", "age": 3}},
+		{Kind: "patch", Parts: []sePart{{0, *email}, {1, rating}}, SetDefault: true},
+		{Kind: "update", Col: 0, Doc: 0, W: map[string]any{"email": "a@x", "pts": 2}},
+		{Kind: "update", Col: 1, Doc: 1, W: map[string]any{"rating": 5, "pages": 11}},
+		{Kind: "create", Col: 1, Doc: 4, W: map[string]any{"title": "u", "rating": 3}},
+		{Kind: "patch", Parts: []sePart{{0, *score}, {2, stars}, {0, *hits}}, SetDefault: false},
+		{Kind: "update", Col: 0, Doc: 0, W: map[string]any{"email": "a2@x"}}, // User #1 is no longer the latest
+		{Kind: "update", Col: 2, Doc: 2, W: map[string]any{"rank": 2, "seen": -1}},
+		{Kind: "switch", Col: 0, Ver: 2},
+		{Kind: "update", Col: 0, Doc: 0, W: map[string]any{"score": 0.5, "hits": 2}},
+		{Kind: "switch", Col: 1, Ver: 0},
+		{Kind: "update", Col: 1, Doc: 1, W: map[string]any{"pages": 12}},
+		{Kind: "patch", Parts: []sePart{{1, isbn}, {2, mark}, {0, nick}}, SetDefault: true},
+		{Kind: "update", Col: 1, Doc: 1, W: map[string]any{"isbn": "i1"}},
+		{Kind: "update", Col: 2, Doc: 2, W: map[string]any{"mark": "m", "seen": 1}},
+		{Kind: "update", Col: 0, Doc: 3, W: map[string]any{"nick": "n", "score": 1.5}},
+		{Kind: "delete", Col: 1, Doc: 4},
+		{Kind: "switch", Col: 2, Ver: 1},
+		{Kind: "update", Col: 2, Doc: 2, W: map[string]any{"stars": 4}},
+		{Kind: "switch", Col: 0, Ver: 0},
+		{Kind: "update", Col: 0, Doc: 0, W: map[string]any{"age": 7}},
+	}})
+	// two nodes, two collections: A applies a User+Book patch as default and writes the new fields; B merges
+	// them while it knows neither field, then applies the same patch (operations in the other order); a
+	// second patch (two fields for User, one for Book) on A only, not default, A switches Book to it; exchange
+	xch := func(docs int) []seOp {
+		var ops []seOp
+		for round := 0; round < 2; round++ {
+			for d := 0; d < docs; d++ {
+				col := []int{0, 1, 1, 0}[d]
+				ops = append(ops, seOp{Kind: "deliver", Node: 1, Src: 0, Col: col, Doc: d}, seOp{Kind: "deliver", Node: 0, Src: 1, Col: col, Doc: d})
+			}
+		}
+		return ops
+	}
+	two := []seOp{
+		{Kind: "create", Node: 0, Col: 0, Doc: 0, W: map[string]any{"name": "a", "pts": 1}},
+		{Kind: "create", Node: 0, Col: 1, Doc: 1, W: map[string]any{"title": "t", "pages": 1}},
+		{Kind: "create", Node: 1, Col: 1, Doc: 2, W: map[string]any{"title": "u"}},
+		{Kind: "deliver", Node: 1, Src: 0, Col: 0, Doc: 0},
+		{Kind: "deliver", Node: 1, Src: 0, Col: 1, Doc: 1},
+		{Kind: "deliver", Node: 0, Src: 1, Col: 1, Doc: 2},
+		{Kind: "patch", Node: 0, Parts: []sePart{{0, *email}, {1, rating}}, SetDefault: true},
+		{Kind: "update", Node: 0, Col: 0, Doc: 0, W: map[string]any{"email": "a@x", "age": 1}},
+		{Kind: "update", Node: 0, Col: 1, Doc: 1, W: map[string]any{"rating": 5}},
+		{Kind: "update", Node: 0, Col: 1, Doc: 2, W: map[string]any{"pages": 7}},
+		{Kind: "deliver", Node: 1, Src: 0, Col: 0, Doc: 0}, // receiver knows neither email nor rating
+		{Kind: "deliver", Node: 1, Src: 0, Col: 1, Doc: 1},
+		{Kind: "update", Node: 1, Col: 1, Doc: 1, W: map[string]any{"pages": 2}},
+		{Kind: "patch", Node: 1, Parts: []sePart{{1, rating}, {0, *email}}, SetDefault: true},
+		{Kind: "update", Node: 1, Col: 1, Doc: 2, W: map[string]any{"rating": 2}},
+		{Kind: "create", Node: 1, Col: 0, Doc: 3, W: map[string]any{"name": "c", "email": "c@x"}},
+		{Kind: "patch", Node: 0, Parts: []sePart{{0, *score}, {1, isbn}, {0, *hits}}, SetDefault: false},
+		{Kind: "switch", Node: 0, Col: 1, Ver: 2},
+		{Kind: "update", Node: 0, Col: 1, Doc: 1, W: map[string]any{"isbn": "i"}},
+		{Kind: "update", Node: 0, Col: 0, Doc: 0, W: map[string]any{"pts": 2}},
+	}
+	add(seParams{Index: false, Nodes: 2, Cols: 2, Script: append(two, xch(4)...)})
 	return cs
 }
 
 func seCases(seed uint64, tier string) []core.Case {
 	cs := seAnchors()
 	rng := rand.New(rand.NewPCG(seed, 1919))
-	n := tierN(tier, 120, 3000)
+	n := tierN(tier, 160, 3000)
 	for i := 0; i < n; i++ {
 		var p seParams
 		if rng.IntN(100) < 62 {
@@ -526,6 +727,7 @@ type seRun struct {
 	activeWrong        bool
 	reportedUnreadable map[string]bool
 	stepViolated       bool
+	multiTouched       map[string]bool // "node/col": a patch of several collections made a new version of col the default
 }
 
 func (t *seRun) logf(f string, a ...any) { t.log = append(t.log, fmt.Sprintf(f, a...)) }
@@ -576,7 +778,7 @@ func seCanonNum(x any) string {
 func runSchemaEvolution(ctx context.Context, c core.Case, r *core.Rec) {
 	var p seParams
 	c.P(&p)
-	t := &seRun{ctx: ctx, p: p, r: r, fields: map[string]seField{}, reportedUnreadable: map[string]bool{}}
+	t := &seRun{ctx: ctx, p: p, r: r, fields: map[string]seField{}, reportedUnreadable: map[string]bool{}, multiTouched: map[string]bool{}}
 	for c := 0; c < p.Cols; c++ {
 		for _, f := range seBase[c] {
 			t.fields[f.Name] = f
@@ -629,7 +831,11 @@ func (t *seRun) shape() string {
 	for _, op := range t.p.Script {
 		switch op.Kind {
 		case "patch":
-			parts = append(parts, fmt.Sprintf("P%d.%d:%s/%d/%v", op.Node, op.Col, op.Field.Kind, op.Field.Typ, op.SetDefault))
+			var ps []string
+			for _, pt := range op.parts() {
+				ps = append(ps, fmt.Sprintf("%d:%s/%d", pt.Col, pt.Field.Kind, pt.Field.Typ))
+			}
+			parts = append(parts, fmt.Sprintf("P%d.%s/%v", op.Node, strings.Join(ps, "+"), op.SetDefault))
 		case "switch":
 			parts = append(parts, fmt.Sprintf("S%d.%d:%d", op.Node, op.Col, op.Ver))
 		case "deliver":
@@ -911,6 +1117,15 @@ func (t *seRun) checkModel(after string) {
 	}
 }
 
+func containsInt(l []int, x int) bool {
+	for _, e := range l {
+		if e == x {
+			return true
+		}
+	}
+	return false
+}
+
 func contains(l []string, x string) bool {
 	for _, e := range l {
 		if e == x {
@@ -967,8 +1182,14 @@ func (t *seRun) checkIndex(after string) {
 }
 
 // schemaStep runs a patch or switch between two dumps and compares them on the common fields.
-func (t *seRun) schemaStep(ni, col int, kind string, f func() error) {
+// cols = the collections the step names (a switch: one; a patch: one or several).
+func (t *seRun) schemaStep(ni int, cols []int, kind string, f func() error) {
 	sn := t.nodes[ni]
+	col := cols[0]
+	var names []string
+	for _, c := range cols {
+		names = append(names, seColNames[c])
+	}
 	before := make([]*seDump, t.p.Cols)
 	beforeFields := make([][]string, t.p.Cols)
 	for c := 0; c < t.p.Cols; c++ {
@@ -980,7 +1201,7 @@ func (t *seRun) schemaStep(ni, col int, kind string, f func() error) {
 	}
 	if err := f(); err != nil {
 		t.r.Count("evaluations", 1)
-		t.violate("schema-step/"+kind+"/error", fmt.Sprintf("n%d: %s on %s failed: %v", ni, kind, seColNames[col], err))
+		t.violate("schema-step/"+kind+"/error", fmt.Sprintf("n%d: %s on %s failed: %v", ni, kind, strings.Join(names, "+"), err))
 		t.stop = true
 		return
 	}
@@ -1016,7 +1237,7 @@ func (t *seRun) schemaStep(ni, col int, kind string, f func() error) {
 			}
 			for _, fn := range afterFields {
 				// a field the document never carried (it is new to every document right after its patch)
-				if kind == "patch" && !contains(beforeFields[c], fn) && c == col && arow[fn] != nil {
+				if kind != "switch" && !contains(beforeFields[c], fn) && containsInt(cols, c) && arow[fn] != nil {
 					t.violate("schema-step/patch/added-field-not-null", fmt.Sprintf("n%d: document %s reads %s for the field %s added by the patch", ni, id, seCanon(arow[fn]), fn))
 					return
 				}
@@ -1038,48 +1259,133 @@ func (t *seRun) step(i int, op seOp) {
 	nonLatest := func() bool { return sn.active[op.Col] != len(sn.vers[op.Col])-1 }
 	switch op.Kind {
 	case "patch":
-		f := *op.Field
-		t.fields[f.Name] = f
-		val := fmt.Sprintf(`{"Name":%q,"Kind":%q}`, f.Name, f.Kind)
-		if f.Typ != 0 {
-			val = fmt.Sprintf(`{"Name":%q,"Kind":%q,"Typ":%d}`, f.Name, f.Kind, f.Typ)
+		parts := op.parts()
+		if len(parts) == 0 {
+			panic("script: patch without field")
 		}
-		patch := fmt.Sprintf(`[{"op":"add","path":"/%s/Fields/-","value":%s}]`, name, val)
-		t.logf("#%d n%d patch %s setDefault=%v (active #%d of %d)", i, op.Node, patch, op.SetDefault, sn.active[op.Col], len(sn.vers[op.Col]))
-		nv := len(sn.vers[op.Col])
-		prevActive := sn.active[op.Col]
-		t.schemaStep(op.Node, op.Col, "patch", func() error {
+		touched := seTouched(parts)
+		kind := "patch"
+		if len(touched) > 1 {
+			kind = "multipatch" // ONE PatchSchema call naming several collections
+		}
+		var ops []string
+		perCol := map[int]int{}
+		for _, pt := range parts {
+			f := pt.Field
+			t.fields[f.Name] = f
+			val := fmt.Sprintf(`{"Name":%q,"Kind":%q}`, f.Name, f.Kind)
+			if f.Typ != 0 {
+				val = fmt.Sprintf(`{"Name":%q,"Kind":%q,"Typ":%d}`, f.Name, f.Kind, f.Typ)
+			}
+			ops = append(ops, fmt.Sprintf(`{"op":"add","path":"/%s/Fields/-","value":%s}`, seColNames[pt.Col], val))
+			perCol[pt.Col]++
+		}
+		patch := "[" + strings.Join(ops, ",") + "]"
+		nvs := make([]int, t.p.Cols)
+		prevActive := append([]int{}, sn.active...)
+		onNonLatest := false
+		var pos []string
+		for c := 0; c < t.p.Cols; c++ {
+			nvs[c] = len(sn.vers[c])
+			if containsInt(touched, c) {
+				pos = append(pos, fmt.Sprintf("%s active #%d of %d", seColNames[c], sn.active[c], nvs[c]))
+				if sn.active[c] != nvs[c]-1 {
+					onNonLatest = true
+				}
+			}
+		}
+		t.logf("#%d n%d %s %s setDefault=%v (%s)", i, op.Node, kind, patch, op.SetDefault, strings.Join(pos, "; "))
+		t.schemaStep(op.Node, touched, kind, func() error {
 			err := sn.n.DB.PatchSchema(t.ctx, patch, immutable.None[model.Lens](), op.SetDefault)
 			if err == nil && op.SetDefault {
-				sn.active[op.Col] = nv // the version the patch creates is registered by refreshVersions
+				for _, c := range touched {
+					sn.active[c] = nvs[c] // the version the patch creates is registered by refreshVersions
+				}
 			}
 			return err
 		})
 		if t.stop {
 			return
 		}
-		if len(sn.vers[op.Col]) != nv+1 {
-			t.violate("versions/patch-created-no-version", fmt.Sprintf("n%d: the patch left %d versions of %s (was %d)", op.Node, len(sn.vers[op.Col]), name, nv))
-			t.stop = true
-			return
-		}
-		// the new version = the version patched + the field
-		want := append(append([]string{}, sn.vers[op.Col][prevActive].Fields...), f.Name)
-		sort.Strings(want)
-		if strings.Join(want, ",") != strings.Join(sn.vers[op.Col][nv].Fields, ",") {
-			t.violate("versions/patch-field-set", fmt.Sprintf("n%d: the patched version has fields %v, expected %v", op.Node, sn.vers[op.Col][nv].Fields, want))
-			t.stop = true
-			return
+		for c := 0; c < t.p.Cols; c++ {
+			if !containsInt(touched, c) {
+				if len(sn.vers[c]) != nvs[c] {
+					t.violate("versions/patch-created-version-of-collection-it-does-not-name", fmt.Sprintf("n%d: the %s %s left %d versions of %s (was %d)", op.Node, kind, patch, len(sn.vers[c]), seColNames[c], nvs[c]))
+					t.stop = true
+					return
+				}
+				continue
+			}
+			if len(sn.vers[c]) != nvs[c]+1 {
+				t.violate("versions/patch-created-no-version", fmt.Sprintf("n%d: the %s left %d versions of %s (was %d)", op.Node, kind, len(sn.vers[c]), seColNames[c], nvs[c]))
+				t.stop = true
+				return
+			}
+			// the new version = the version patched + the fields added to this collection
+			want := append([]string{}, sn.vers[c][prevActive[c]].Fields...)
+			for _, pt := range parts {
+				if pt.Col == c {
+					want = append(want, pt.Field.Name)
+				}
+			}
+			sort.Strings(want)
+			if strings.Join(want, ",") != strings.Join(sn.vers[c][nvs[c]].Fields, ",") {
+				t.violate("versions/patch-field-set", fmt.Sprintf("n%d: the patched version of %s has fields %v, expected %v", op.Node, seColNames[c], sn.vers[c][nvs[c]].Fields, want))
+				t.stop = true
+				return
+			}
 		}
 		t.r.Count("patches", 1)
-		t.r.Count("patch_kind_"+strings.NewReplacer("[", "arr", "]", "", "!", "nn").Replace(f.Kind)+fmt.Sprintf("_typ%d", f.Typ), 1)
+		for _, pt := range parts {
+			t.r.Count("patch_kind_"+strings.NewReplacer("[", "arr", "]", "", "!", "nn").Replace(pt.Field.Kind)+fmt.Sprintf("_typ%d", pt.Field.Typ), 1)
+		}
 		if !op.SetDefault {
 			t.r.Count("patches_not_default", 1)
 		}
-		if prevActive != nv-1 {
+		if onNonLatest {
 			t.r.Count("patches_on_nonlatest_version", 1)
 		}
-		t.checkModel("patch")
+		if len(touched) > 1 {
+			t.r.Count("patches_touching_several_collections", 1)
+			if op.SetDefault {
+				t.r.Count("multi_patches_set_default", 1)
+			} else {
+				t.r.Count("multi_patches_not_default", 1)
+			}
+			if onNonLatest {
+				t.r.Count("multi_patches_on_nonlatest_version", 1)
+			}
+			if len(touched) > 2 {
+				t.r.Count("multi_patches_three_collections", 1)
+			}
+			for _, k := range perCol {
+				if k > 1 {
+					t.r.Count("multi_patches_two_fields_in_one_collection", 1)
+					break
+				}
+			}
+			if t.p.Nodes > 1 {
+				t.r.Count("multi_patches_two_node", 1)
+			}
+			docsIn := 0
+			for _, c := range touched {
+				for d, doc := range t.docs {
+					if doc.Col == c && sn.known[d] {
+						docsIn++
+						break
+					}
+				}
+			}
+			if docsIn == len(touched) {
+				t.r.Count("multi_patches_with_documents_in_every_patched_collection", 1)
+			}
+			for _, c := range touched {
+				if op.SetDefault {
+					t.multiTouched[fmt.Sprintf("%d/%d", op.Node, c)] = true
+				}
+			}
+		}
+		t.checkModel(kind)
 	case "switch":
 		if op.Ver >= len(sn.vers[op.Col]) {
 			panic("script: switch to unknown version")
@@ -1091,7 +1397,7 @@ func (t *seRun) step(i int, op seOp) {
 		if t.nonLate {
 			t.switchAfterNonLate = true
 		}
-		t.schemaStep(op.Node, op.Col, "switch", func() error {
+		t.schemaStep(op.Node, []int{op.Col}, "switch", func() error {
 			err := sn.n.DB.SetActiveSchemaVersion(t.ctx, sn.vers[op.Col][op.Ver].ID)
 			if err == nil {
 				sn.active[op.Col] = op.Ver
@@ -1200,6 +1506,9 @@ func (t *seRun) step(i int, op seOp) {
 
 func (t *seRun) afterWrite(op seOp, nonLatest bool) {
 	t.r.Count("writes", 1)
+	if t.multiTouched[fmt.Sprintf("%d/%d", op.Node, op.Col)] {
+		t.r.Count("writes_after_multi_patch_made_default", 1)
+	}
 	if nonLatest {
 		t.r.Count("writes_under_nonlatest_version", 1)
 		t.nonLate = true
@@ -1308,15 +1617,23 @@ func (t *seRun) tour() {
 
 // agreement: after the full exchange the two nodes agree on every field both active versions know.
 func (t *seRun) agreement() {
-	a, ok := t.dump(0, 0, "exchange")
-	if !ok {
-		return
+	for col := 0; col < t.p.Cols; col++ {
+		if !t.agreementCol(col) {
+			return
+		}
 	}
-	b, ok := t.dump(1, 0, "exchange")
+}
+
+func (t *seRun) agreementCol(col int) bool {
+	a, ok := t.dump(0, col, "exchange")
 	if !ok {
-		return
+		return false
 	}
-	fa, fb := t.activeFields(0, 0), t.activeFields(1, 0)
+	b, ok := t.dump(1, col, "exchange")
+	if !ok {
+		return false
+	}
+	fa, fb := t.activeFields(0, col), t.activeFields(1, col)
 	var common []string
 	for _, f := range fa {
 		if contains(fb, f) {
@@ -1328,7 +1645,13 @@ func (t *seRun) agreement() {
 	if len(fa) != len(common) || len(fb) != len(common) {
 		t.r.Count("agreement_checks_between_different_versions", 1)
 	}
+	if t.multiTouched[fmt.Sprintf("0/%d", col)] || t.multiTouched[fmt.Sprintf("1/%d", col)] {
+		t.r.Count("agreement_checks_after_multi_patch", 1)
+	}
 	for di, doc := range t.docs {
+		if doc.Col != col {
+			continue
+		}
 		ra, oka := a.rows[doc.ID]
 		rb, okb := b.rows[doc.ID]
 		if !t.nodes[0].known[di] || !t.nodes[1].known[di] {
@@ -1336,11 +1659,11 @@ func (t *seRun) agreement() {
 		}
 		if !oka || !okb {
 			t.violate("two-node/document-missing-after-exchange", fmt.Sprintf("d%d: returned by n0=%v n1=%v after both merged all its commits", di, oka, okb))
-			return
+			return false
 		}
 		if seCanon(ra["_deleted"]) != seCanon(rb["_deleted"]) {
 			t.violate("two-node/deleted-status-disagreement", fmt.Sprintf("d%d: _deleted n0=%v n1=%v after the exchange", di, ra["_deleted"], rb["_deleted"]))
-			return
+			return false
 		}
 		for _, f := range common {
 			key := fmt.Sprintf("%d/%s", di, f)
@@ -1353,24 +1676,27 @@ func (t *seRun) agreement() {
 			}
 			t.r.Count("common_fields_compared", 1)
 			if seCanon(ra[f]) != seCanon(rb[f]) {
-				t.violate("two-node/common-field-disagreement", fmt.Sprintf("d%d field %s: n0 (version #%d) reads %s, n1 (version #%d) reads %s after exchanging all commits; both active versions know the field and both knew it whenever they merged a commit carrying it",
-					di, f, t.nodes[0].active[0], seCanon(ra[f]), t.nodes[1].active[0], seCanon(rb[f])))
-				return
+				t.violate("two-node/common-field-disagreement", fmt.Sprintf("d%d (%s) field %s: n0 (version #%d) reads %s, n1 (version #%d) reads %s after exchanging all commits; both active versions know the field and both knew it whenever they merged a commit carrying it",
+					di, seColNames[col], f, t.nodes[0].active[col], seCanon(ra[f]), t.nodes[1].active[col], seCanon(rb[f])))
+				return false
 			}
 		}
 	}
+	return true
 }
 
 func init() {
 	core.Register(&core.Check{
 		ID: "C19", Level: "exploration",
-		Rule: "4 anchor histories + generated scripted histories. evolve: one node, 1-2 collections, 3-6 documents, up to 4 add-field patches (String, Int, Float, Boolean, DateTime, JSON, Blob, [Int!], [String], " +
+		Rule: "6 anchor histories + generated scripted histories. evolve: one node, 1-3 collections, 3-7 documents, up to 4 PatchSchema calls, each adding one field to one collection or 2-4 fields to two or three collections at once (String, Int, Float, Boolean, DateTime, JSON, Blob, [Int!], [String], " +
 			"pncounter Int/Float, pcounter; setAsDefaultVersion true/false; also on top of a non-latest version), SetActiveSchemaVersion back and forth incl. to the root, creates/updates/deletes under whatever version is active, " +
-			"optional secondary index on an old field, final tour over all versions. two-node: nodes patched at different times / differently / one only, version switches, writes, exchange by block-closure copy + VerifMerge. " +
+			"optional secondary index on an old field, final tour over all versions. two-node: 1-3 collections, nodes patched at different times / differently / one only (single- and multi-collection patches), version switches, writes, exchange by block-closure copy + VerifMerge. " +
 			"non-trivial = >=1 write under a non-latest active version and >=1 switch after it; distinct by (index, collections, sequence of patches/switches/write positions).",
-		Cases:       seCases,
-		Run:         runSchemaEvolution,
-		Floors:      []string{"dumps", "patches", "patches_not_default", "switches", "switches_to_root", "writes_under_nonlatest_version", "before_after_comparisons", "commit_lists_compared", "two_node_histories", "merge_with_field_unknown_to_receiver", "merges_between_different_versions", "agreement_checks_between_different_versions", "common_fields_compared", "index_queries", "nontrivial_histories"},
+		Cases: seCases,
+		Run:   runSchemaEvolution,
+		Floors: []string{"dumps", "patches", "patches_not_default", "switches", "switches_to_root", "writes_under_nonlatest_version", "before_after_comparisons", "commit_lists_compared", "two_node_histories", "merge_with_field_unknown_to_receiver", "merges_between_different_versions", "agreement_checks_between_different_versions", "common_fields_compared", "index_queries", "nontrivial_histories",
+			"patches_touching_several_collections", "multi_patches_set_default", "multi_patches_not_default", "multi_patches_on_nonlatest_version", "multi_patches_three_collections",
+			"multi_patches_two_fields_in_one_collection", "multi_patches_two_node", "multi_patches_with_documents_in_every_patched_collection", "writes_after_multi_patch_made_default", "agreement_checks_after_multi_patch"},
 		CaseTimeout: 10 * time.Minute,
 		Assumptions: []string{
 			"PatchSchema cannot declare a default value for an added field (SchemaFieldDescription has Name/Kind/Typ only, unknown properties are rejected): added fields are expected to read null for documents that never wrote them; a default declared in the SDL (tag) is modelled from the client document",
